@@ -905,6 +905,9 @@ func (tx *Transaction) ProcessRequestHeaders() *types.Interruption {
 
 func setAndReturnBodyLimitInterruption(tx *Transaction, status int) (*types.Interruption, int, error) {
 	tx.debugLogger.Warn().Msg("Disrupting transaction with body size above the configured limit (Action Reject)")
+	if tx.interruption != nil {
+		return tx.interruption, 0, nil
+	}
 	tx.interruption = &types.Interruption{
 		Status: status,
 		Action: "deny",
